@@ -1601,3 +1601,183 @@ func wgBarriers(w *load.World, f *ssa.Function, wg ssa.Value, depth int) (map[*s
 	}
 	return barrier, banned
 }
+
+// DIRTYGUARD: "if x.countDirty { bucket.Put(key, x.count) }": a persisted field whose write-out is
+// skipped unless a flag is set is only correct when every assignment of the field also sets the
+// flag. Reported: an assignment of such a field from which the function can return without the
+// flag having been set (a decrement on the delete path that forgets the flag leaves the stored
+// value stale; the next process start reads it).
+func DirtyGuard(w *load.World, c *core.Collector) {
+	per := map[string][]lintHit{}
+	seen := map[string]bool{}
+	type guard struct {
+		st         *types.Struct
+		flag, data int
+		at         string
+	}
+	var guards []guard
+	fieldLoad := func(v ssa.Value) (*types.Struct, int, bool) {
+		ld, ok := v.(*ssa.UnOp)
+		if !ok || ld.Op != token.MUL {
+			return nil, 0, false
+		}
+		fa, ok := ld.X.(*ssa.FieldAddr)
+		if !ok {
+			return nil, 0, false
+		}
+		st := ssax.StructOf(fa.X.Type())
+		return st, fa.Field, st != nil
+	}
+	for _, f := range w.Fns {
+		if !load.InMod(f) || f.Synthetic != "" {
+			continue
+		}
+		seen[load.PkgPath(f)] = true
+		for _, b := range f.Blocks {
+			ifi, ok := b.Instrs[len(b.Instrs)-1].(*ssa.If)
+			if !ok {
+				continue
+			}
+			cond, neg := ifi.Cond, false
+			if u, ok := cond.(*ssa.UnOp); ok && u.Op == token.NOT {
+				cond, neg = u.X, true
+			}
+			st, flag, ok := fieldLoad(cond)
+			if !ok {
+				continue
+			}
+			if bt, isB := st.Field(flag).Type().Underlying().(*types.Basic); !isB || bt.Kind() != types.Bool {
+				continue
+			}
+			edge := 0
+			if neg {
+				edge = 1
+			}
+			for _, pb := range f.Blocks {
+				if !ssax.OnlyViaEdge(b, edge, pb) {
+					continue
+				}
+				for _, in := range pb.Instrs {
+					call, ok := in.(*ssa.Call)
+					if !ok || !call.Call.IsInvoke() || call.Call.Method.Name() != "Put" || len(call.Call.Args) < 2 {
+						continue
+					}
+					// which field of the same struct does the stored value come from
+					var find func(v ssa.Value, depth int) int
+					find = func(v ssa.Value, depth int) int {
+						if depth > 5 {
+							return -1
+						}
+						if s2, idx, ok := fieldLoad(v); ok && s2 == st && idx != flag {
+							return idx
+						}
+						if in2, ok := v.(ssa.Instruction); ok {
+							for _, op := range in2.Operands(nil) {
+								if *op != nil {
+									if r := find(*op, depth+1); r >= 0 {
+										return r
+									}
+								}
+							}
+						}
+						return -1
+					}
+					if data := find(call.Call.Args[1], 0); data >= 0 {
+						guards = append(guards, guard{st, flag, data, w.At(call)})
+					}
+				}
+			}
+		}
+	}
+	c.Count("flag_guarded_persisted_fields", len(guards))
+	for _, g := range guards {
+		for _, f := range w.Fns {
+			if !load.InMod(f) || f.Synthetic != "" {
+				continue
+			}
+			pkg := load.PkgPath(f)
+			for _, b := range f.Blocks {
+				for _, in := range b.Instrs {
+					st, ok := in.(*ssa.Store)
+					if !ok {
+						continue
+					}
+					fa, ok := st.Addr.(*ssa.FieldAddr)
+					if !ok || ssax.StructOf(fa.X.Type()) != g.st || fa.Field != g.data {
+						continue
+					}
+					if _, fresh := ssax.Path(fa.X); fresh {
+						continue // the object is being built
+					}
+					// the flag is set in this function on every way from the assignment to a return
+					flagSet := func(x ssa.Instruction) bool {
+						s2, ok := x.(*ssa.Store)
+						if !ok {
+							return false
+						}
+						fa2, ok := s2.Addr.(*ssa.FieldAddr)
+						if !ok || ssax.StructOf(fa2.X.Type()) != g.st || fa2.Field != g.flag {
+							return false
+						}
+						cb, isC := ssax.ConstBool(s2.Val)
+						return isC && cb
+					}
+					covered := false
+					for _, x := range b.Instrs {
+						if flagSet(x) {
+							covered = true
+						}
+					}
+					if !covered {
+						seenB := map[*ssa.BasicBlock]bool{}
+						var dfs func(x *ssa.BasicBlock) bool
+						dfs = func(x *ssa.BasicBlock) bool {
+							if seenB[x] {
+								return false
+							}
+							seenB[x] = true
+							for _, xi := range x.Instrs {
+								if flagSet(xi) {
+									return false
+								}
+								if _, isRet := xi.(*ssa.Return); isRet {
+									return true
+								}
+							}
+							for _, sc := range x.Succs {
+								if dfs(sc) {
+									return true
+								}
+							}
+							return false
+						}
+						escapes := false
+						for _, sc := range b.Succs {
+							if dfs(sc) {
+								escapes = true
+							}
+						}
+						if _, isRet := b.Instrs[len(b.Instrs)-1].(*ssa.Return); isRet {
+							escapes = true
+						}
+						covered = !escapes
+						// ... or it was set before, on every way to the assignment
+						if !covered {
+							for _, pb := range f.Blocks {
+								for _, x := range pb.Instrs {
+									if flagSet(x) && pb != b && pb.Dominates(b) {
+										covered = true
+									}
+								}
+							}
+						}
+					}
+					if !covered {
+						per[pkg] = append(per[pkg], lintHit{w.At(st), fmt.Sprintf("%s.%s is assigned here, but it is only written to the bucket when %s is set (%s), and this path returns without setting it: the stored value goes stale", ssax.TypeName(fa.X.Type()), g.st.Field(g.data).Name(), g.st.Field(g.flag).Name(), g.at)})
+					}
+				}
+			}
+		}
+	}
+	emitLint(c, "DIRTYGUARD", "flag-guarded-write", seen, per, nil)
+}
